@@ -9,7 +9,7 @@ from .. import flow as flw
 from ..cov import BASIS, INV, TOP, CovTyper, sdp_branch
 from ..model import calls_in, unparse, walk_no_nested
 from ..norm import Normalizer, calls_to, kwarg, mentions_name, show, subterms
-from ..rules import calls_from, r_effect_free, r_guard_pred, return_terms
+from ..rules import calls_from, r_effect_free, r_guard_pred, r_thread, return_terms
 from ..sdp import Skeleton
 
 MATRIX_NORM_CLASS = {"nuc": "1", "fro": "2", None: "2", 2: "inf", -2: "-inf", 1: "max-col-sum", float("inf"): "max-row-sum"}
@@ -292,6 +292,24 @@ def run(ctx):  # noqa: C901
     fos = m.func("state_metrics.fidelity_of_separability.fidelity_of_separability")
     for pred, arg in (("is_density", "input_state_rho"), ("is_pure", "input_state_rho"), ("is_separable", "input_state_rho")):
         r_guard_pred(ctx, fos, pred, arg)
+    # the separability guard must be told the local dimensions (is_separable otherwise infers them from the size alone: a 3 (x) 2 product
+    # state is then tested as 2 (x) 3 and rejected as entangled -- F57)
+    r_thread(ctx, fos, "input_state_rho_dims", "is_separable.is_separable", formal="dim")
+    # the local dimensions describe the state as it is given: they are unpacked in the caller's order (nothing here permutes the state,
+    # so sorting / reversing the dims describes a different tensor factorisation of the same matrix)
+    unp = [n for n in walk_no_nested(fos.node) if isinstance(n, ast.Assign) and isinstance(n.targets[0], (ast.Tuple, ast.List)) and len(n.targets[0].elts) == 2
+           and "input_state_rho_dims" in unparse(n.value)]
+    if unp:
+        v = unp[0].value
+        while isinstance(v, ast.Call) and isinstance(v.func, ast.Name) and v.func.id in ("list", "tuple") and len(v.args) == 1:
+            v = v.args[0]
+        oku = isinstance(v, ast.Name) and v.id == "input_state_rho_dims"
+        ctx.ob("R-THREAD", fos, "dim_A, dim_B are the caller's dims in the caller's order", oku,
+               "dim_a, dim_b = input_state_rho_dims" if oku else
+               f"`{unparse(unp[0])[:70]}` re-orders the dims while the state keeps its order: with dims [2, 3] the programme treats the operator as living on 3 (x) 2, "
+               "where a product state of 2 (x) 3 is in general entangled", unp[0])
+    else:
+        ctx.ob("R-THREAD", fos, "dim_A, dim_B are the caller's dims in the caller's order", None, "unpacking of the dims not found", required=False)
     N = Normalizer(m, fos, inline=False)
     res = flw.flow(fos.node)
     okl = any(flw.conds(f2) and "builtins.len" in repr(N(flw.conds(f2)[-1][0])) and "input_state_rho_dims" in repr(N(flw.conds(f2)[-1][0])) for _, f2 in res.raises)
